@@ -215,3 +215,21 @@ func compareLockstep(c *mon.Ctx, prop string, in *progInput, model *refscript.Re
 	}
 	return agree
 }
+
+func vectorsParse(s string) ([]byte, error) { return vectors.ParseShort(s) }
+
+type falseChecker struct{}
+
+func (falseChecker) CheckSig(_, _, _ []byte, _ bool) bool { return false }
+
+// resourceHog uses the reference model as a cheap pre-filter: programs whose
+// node-rule execution would build an element above the model's 4 MiB cap
+// (e.g. "1 0x7fffffff NUM2BIN" after Genesis, which legitimately yields a
+// 2 GiB element) are not handed to the library by the totality, aliasing and
+// debugger monitors – they would only measure allocation speed.
+func resourceHog(unlock, lock []byte, flags uint32, ctx progCtx) bool {
+	in := progInput{Unlock: unlock, Lock: lock, Flags: flags, Ctx: ctx}
+	in.Ctx.HasTx = true
+	r := refscript.Verify(unlock, lock, modelOpts(&in, falseChecker{}, false))
+	return r.Unsupported != "" && r.Unsupported != "CLEANSTACK without P2SH"
+}
